@@ -12,6 +12,9 @@
 (*            reference / another independent implementation under this key).         *)
 (*  kat     : known-answer vectors (Wycheproof, RFC) -- gate of the reference itself. *)
 (*  polyval, sivctr : internal functions reached through verif hooks.                *)
+(* The caller's buffers are part of the contract: every call gets its inputs adjacent in one reused frame    *)
+(* (both orders, natural capacity, with/without sentinel spare capacity); inIntact / rtIntact say the frame     *)
+(* was unchanged after the call, and every Decrypt is issued twice from the same frame.                        *)
 (* Events are self-contained (they carry their key configuration and, for decrypt,   *)
 (* the produced pairs), so that a trace can be sharded and resumed.                  *)
 EXTENDS Envelope, Json, IOUtils, TLC
@@ -54,6 +57,7 @@ EncryptMayRefuse(e) == e.mode = "envelope" /\ e.rkind = "padded" /\ e.padTo > En
 
 JudgeEncrypt(e) ==
   IF e.panic THEN <<"Encrypt panicked">>
+  ELSE IF ~e.inIntact THEN <<"Encrypt modified the caller's input buffers (plaintext, associated data or the memory around them)">>
   ELSE IF e.err THEN IF EncryptMayRefuse(e) THEN <<>> ELSE <<"Encrypt failed on a valid key and input">>
   ELSE LET ct == HexToBytes(e.ct)
            pt == HexToBytes(e.pt)
@@ -62,12 +66,15 @@ JudgeEncrypt(e) ==
           ELSE IF r[2] # pt THEN <<"an independent implementation decrypts Tink's ciphertext to a different plaintext", BytesToHex(r[2])>>
           ELSE IF Len(ct) # WantLen(e, ct, Len(pt)) THEN <<"ciphertext length is not prefix + nonce + |pt| + tag", ToString(WantLen(e, ct, Len(pt)))>>
           ELSE IF e.rtpanic THEN <<"Decrypt panicked on Encrypt's output">>
+          ELSE IF ~e.rtIntact THEN <<"Decrypt modified the caller's input buffers (ciphertext, associated data or the memory around them)">>
           ELSE IF ~e.rtok THEN <<"Decrypt rejects Encrypt's output (nil and empty associated data interchanged)">>
           ELSE IF e.rtout # e.pt THEN <<"Decrypt(Encrypt(pt)) differs from pt", e.pt>>
           ELSE <<>>
 
 JudgeDecrypt(e) ==
   IF e.panic THEN <<"Decrypt panicked">>
+  ELSE IF ~e.inIntact THEN <<"Decrypt modified the caller's input buffers (ciphertext, associated data or the memory around them)">>
+  ELSE IF e.ok2 # e.ok \/ e.out2 # e.out THEN <<"a second Decrypt of the same inputs from the same buffer gives a different result", e.out2>>
   ELSE LET r == Open(e, HexToBytes(e.ct), HexToBytes(e.ad))
            inProduced == \E i \in 1..Len(e.produced) : e.produced[i].ct = e.ct /\ e.produced[i].ad = e.ad
        IN IF e.chk /\ (~r[1] \/ BytesToHex(r[2]) # e.want)
